@@ -99,10 +99,17 @@ FamWitness ==
       \* two openings that are wrong in compensating ways (swapped; value moved from one to the other): m >= 2, positions j, j+1
       W2 == { One([Member(n, t, m, m, "mid", "one", j, "none", "none", 0, 0, 0, "chacha") EXCEPT !.wit = [kind |-> wk, j |-> j]], "VerifyOnly") :
                 n \in NsW \ {1}, t \in {1, 2}, m \in Ms \ {1}, j \in 1..7, wk \in {"swap", "shift"} }
+      \* a witness edited after its construction (its fields are public): one opening with a surplus blinding factor, or with none
+      W3 == { One([Member(n, t, m, m, "mid", "one", j, "none", "none", 0, 0, 0, "chacha") EXCEPT !.wit = [kind |-> wk, j |-> j]], "VerifyOnly") :
+                n \in {4, 64}, t \in {1, 2, 5}, m \in Ms, j \in 1..8, wk \in {"ragmore", "ragnone"} }
+      \* TWO positions out of range at once (equal or different excess)
+      B2 == { One([Member(n, t, m, m, "mid", vs, j, "none", "none", 0, 0, 0, "chacha") EXCEPT !.vals[j2] = Val(vs2, n)], "VerifyOnly") :
+                n \in {4, 8, 32}, t \in {1}, m \in Ms \ {1}, j \in 1..7, j2 \in 2..8, vs \in {"over", "b63", "umax"}, vs2 \in {"over", "b63", "umax", "max"} }
       \* all-zero blinding vectors (with value zero the commitment is the identity)
       Z == { One([Member(n, t, m, m, "mid", vs, j, "none", ps, j, 0, 0, "chacha") EXCEPT !.zb = j], "VerifyOnly") :
                n \in NsW, t \in {1, 2}, m \in Ms, j \in 1..4, vs \in {"zero", "one"}, ps \in {"none", "zero"} }
-  IN {s \in B \cup W : s.members[1].wit.j <= s.members[1].m} \cup {s \in W2 : s.members[1].wit.j < s.members[1].m}
+  IN {s \in B \cup W \cup W3 : s.members[1].wit.j <= s.members[1].m} \cup {s \in W2 : s.members[1].wit.j < s.members[1].m}
+     \cup {s \in B2 : \E j \in 1..7, j2 \in 2..8 : j < j2 /\ j2 <= s.members[1].m /\ s.members[1].vals[j] # Val("mid", s.members[1].n) /\ s.members[1].vals[j2] # Val("mid", s.members[1].n)}
      \cup {s \in Z : s.members[1].zb <= s.members[1].m}
 
 (***************************************************************************************************)
